@@ -17,6 +17,7 @@ import (
 	"pgregory.net/rapid"
 
 	"verifharness/hx"
+	"verifharness/mk"
 )
 
 func TestMain(m *testing.M) { hx.Main(m) }
@@ -29,10 +30,11 @@ type File struct {
 }
 
 type Scenario struct {
-	Files []File   `json:"files"`
-	Args  []string `json:"args"`
-	Shape string   `json:"shape"`
-	KillK int      `json:"kill_k,omitempty"` // set in replay files: the failing boundary
+	Files []File      `json:"files"`
+	Args  []string    `json:"args"`
+	Shape string      `json:"shape"`
+	Links [][2]string `json:"links,omitempty"`  // symbolic links (path, target) created after the files
+	KillK int         `json:"kill_k,omitempty"` // set in replay files: the failing boundary
 }
 
 const rule = "cases = (scenario, k): scenarios are in-place file, in-place tree (sequential -v and the default worker pool), separate output file, output directory, bundle (also onto one of its inputs) and --sync invocations over files of all types with sizes 0 B, small, 64 KB+1 and 1 MB, incl. files the minifier rejects; for every scenario the binary is traced once to count its K file-system syscalls (open with O_CREAT/O_TRUNC/O_WRONLY, write/pwrite/writev to fd > 2, close of fd > 2, rename*, unlink*, mkdir*, chmod/chown/utimens*, symlink*, link*, truncate, fsync, all threads and child processes in global order) and then EVERY k = 1..K is executed: the tree is restored, the run is repeated under ptrace and the whole process is killed (SIGKILL) at the entry of the k-th such syscall, i.e. with the disk in the state after the (k-1)-th; oracle = invariant over the frozen disk: for every input file either its path holds the complete original bytes, or <name>.bak holds them, or its path holds the complete new output; files that are only read are unchanged and have no .bak; no other pre-existing file changed; exhaustive over k per scenario; non-trivial = a kill strictly after the first and before the last file-system change of the run"
@@ -153,6 +155,11 @@ func execute(sc Scenario, k int) (run, fsState, error) {
 	if err != nil {
 		return run{}, nil, fmt.Errorf("HARNESS: %v", err)
 	}
+	for _, l := range sc.Links {
+		if err := os.Symlink(l[1], filepath.Join(work, l[0])); err != nil {
+			return run{}, nil, fmt.Errorf("HARNESS: %v", err)
+		}
+	}
 	report := filepath.Join(parent, "report")
 	args := []string{"-report", report}
 	if k == 0 {
@@ -222,7 +229,7 @@ func roles(sc Scenario) (inputs map[string]bool, inplace bool) {
 		}
 	}
 	_ = out
-	return inputs, sc.Shape == "inplace-file" || sc.Shape == "inplace-tree" || sc.Shape == "inplace-tree-pool" || sc.Shape == "bundle-onto-input"
+	return inputs, sc.Shape == "inplace-file" || sc.Shape == "inplace-via-link" || sc.Shape == "inplace-tree" || sc.Shape == "inplace-tree-pool" || sc.Shape == "bundle-onto-input"
 }
 
 func invariant(sc Scenario, orig, final, frozen fsState) error {
@@ -283,7 +290,20 @@ func checkScenario(sc Scenario) (boundaries int, interior int, err error) {
 	}
 	final := full.state
 	K := full.n
-	// the complete run itself: nothing lost
+	// the complete run itself: for a single file minified onto itself the result is the library's output (or the
+	// original when the library rejects it); otherwise "the complete new output" would be whatever the run left
+	if sc.Shape == "inplace-file" || sc.Shape == "inplace-via-link" {
+		p := sc.Files[0].Path
+		mt := map[string]string{"js": "application/javascript", "css": "text/css", "html": "text/html", "json": "application/json", "svg": "image/svg+xml", "xml": "text/xml"}[filepath.Ext(p)[1:]]
+		want, lerr := mk.RunM(mk.Full(mk.Opts{}), mt, append([]byte{}, orig[p]...))
+		if lerr != nil {
+			want = orig[p]
+		}
+		if !bytes.Equal(final[p], want) {
+			return K, 0, fmt.Errorf("after the complete run %s holds %d bytes that are not the library's output (%d bytes) for it\n--- command: minify %s\n--- syscalls:\n%s", p, len(final[p]), len(want), strings.Join(sc.Args, " "), full.log)
+		}
+	}
+	// nothing lost
 	if e := invariant(sc, orig, final, final); e != nil {
 		return K, 0, fmt.Errorf("after the complete run: %v\n--- command: minify %s\n--- syscalls:\n%s", e, strings.Join(sc.Args, " "), full.log)
 	}
@@ -336,11 +356,15 @@ func genScenario(t *rapid.T) Scenario {
 	// a bystander that no invocation touches
 	files = append(files, File{Path: "bystander.txt", Kind: "txt", Size: 100, Mode: 0o644})
 	sc := Scenario{Files: files}
-	sc.Shape = rapid.SampledFrom([]string{"inplace-file", "inplace-file", "inplace-tree", "inplace-tree-pool", "separate-file", "out-dir", "bundle", "bundle-onto-input", "sync"}).Draw(t, "shape")
+	sc.Shape = rapid.SampledFrom([]string{"inplace-file", "inplace-file", "inplace-via-link", "inplace-tree", "inplace-tree-pool", "separate-file", "out-dir", "bundle", "bundle-onto-input", "sync"}).Draw(t, "shape")
 	first := files[0].Path
 	switch sc.Shape {
 	case "inplace-file":
 		sc.Args = []string{"-q", "-o", first, first}
+	case "inplace-via-link":
+		// the same file under another name: a symbolic link to its directory
+		sc.Links = [][2]string{{"current", filepath.Dir(first)}}
+		sc.Args = []string{"-q", "-o", filepath.Join("current", filepath.Base(first)), first}
 	case "inplace-tree":
 		sc.Args = []string{"-v", "-r", "-o", "src/", "src/"}
 	case "inplace-tree-pool":
